@@ -45,6 +45,22 @@ def check(ctx):
     from .C20 import check_handrolled_memo
     check_handrolled_memo(ctx, 'R7')
 
+def _wrap_bin(v, depth=0):
+    if v is None or depth > 3:
+        return None
+    if v.bin is not None and v.bin[0] == '%':
+        return v.bin
+    return _wrap_bin(v.of, depth + 1) if v.of is not None else None
+
+
+def _table_of(v, depth=0):
+    if v is None or depth > 3:
+        return None
+    if v.tbl is not None:
+        return v.tbl
+    return _table_of(v.of, depth + 1) if v.of is not None else None
+
+
 def check_moves(ctx, R1='R1', R6='R6'):
     fi = ctx.fn(FEG)
     for diag in (True, False):
@@ -56,10 +72,20 @@ def check_moves(ctx, R1='R1', R6='R6'):
         for e in it.events:
             if e['tag'] == 'graph_add_edge':
                 directed = bool(e['graph'].directed)
-        if not loops or directed is None:
+        # on values: the literal table that took part in computing the neighbour end of the inserted edges
+        tbls = []
+        for e in uniq_events(it, {'graph_add_edge'}, under(FEG)):
+            for end in (e['v'], e['u']):
+                t_ = _table_of(end)
+                if t_ is not None and t_ not in tbls:
+                    tbls.append(t_)
+        if directed is None or (not loops and len(tbls) != 1):
             ctx.ob(R1, fi, f'move table (diagonal={diag})', None, 'literal move table feeding add_edge not recognised')
             continue
-        table = it.value_of(loops[-1].iter).litconst[1]
+        table = tbls[0][1] if len(tbls) == 1 else it.value_of(loops[-1].iter).litconst[1]
+        if not all(isinstance(m, (tuple, list)) and len(m) == 3 for m in table):
+            ctx.ob(R1, fi, f'move table (diagonal={diag})', None, 'the move table is not a table of 3-component moves')
+            continue
         moves = {tuple(int(x) for x in m) for m in table}
         eff = set(moves)
         if not directed:
@@ -88,6 +114,11 @@ def check_moves(ctx, R1='R1', R6='R6'):
         v = e['v']
         # v = tuple((node + move) % data.shape)
         node = e['node']
+        wb = _wrap_bin(v)
+        if wb is not None and wb[2] is not None and wb[2].shapeof is not None and wb[1] is not None and wb[1].bin is not None and wb[1].bin[0] == '+':
+            # decided on the value: (a + b) % <shape of an array>
+            ctx.ob(R6, fi, node, True, 'neighbour wrapped modulo the shape of the energy array')
+            continue
         varg = node.args[1] if len(node.args) > 1 else None
         src = None
         if isinstance(varg, ast.Name):
@@ -279,11 +310,14 @@ def check_tables(ctx):
     fi = ctx.fn(FEG)
     it = ctx.entry(FEG, args={'diagonal': const(True)})
     edge_attrs, node_attrs = set(), set()
+    nodes_unknown = False
     for e in it.events:
         if e['tag'] == 'graph_add_edge':
             edge_attrs |= set(e['attrs'])
         if e['tag'] == 'graph_add_node':
             node_attrs |= set(e['attrs'])
+            if e.get('opaque'):
+                nodes_unknown = True
     # readers
     for q in (OP, ONP, '_optimal_path_minmax_energy'):
         q = q if '.' in q else f'gemdat.path.{q}'
@@ -303,12 +337,18 @@ def check_tables(ctx):
                                     else:
                                         vals.add('?')
                         bad = sorted(str(v) for v in vals if v is not None and v != '?' and v not in edge_attrs)
+                        if bad and ('**' in edge_attrs or not edge_attrs):
+                            ctx.ob('R4', f, n, None, f'edge attributes written by the graph builder are not all known; cannot decide about {bad}')
+                            continue
                         ctx.ob('R4', f, n, False if bad else (None if '?' in vals else True),
                                f'weight attribute(s) {sorted(str(v) for v in vals)} are written by the graph builder' if not bad else
                                f'the search reads edge attribute {bad} which the graph builder never writes (networkx then treats every edge as weight 1)')
             if isinstance(n, ast.Subscript) and isinstance(n.slice, ast.Constant) and isinstance(n.value, ast.Subscript) \
                     and isinstance(n.value.value, ast.Attribute) and n.value.value.attr == 'nodes':
                 a = n.slice.value
+                if a not in node_attrs and ('**' in node_attrs or not node_attrs or nodes_unknown):
+                    ctx.ob('R4', f, n, None, f"node attributes written by the graph builder are not all known; cannot decide about '{a}'")
+                    continue
                 ctx.ob('R4', f, n, a in node_attrs, f"node attribute '{a}' is written by the graph builder" if a in node_attrs else
                        f"node attribute '{a}' is never written by the graph builder")
     # the exponential weight is capped from above by the threshold
